@@ -575,14 +575,18 @@ func injectCase(e *ev.Env, c *ev.Case, h *helper, a injArgs, class string) {
 		}
 		return
 	}
-	wantBody := string(b.Body)
+	// The statement forbids that the value adds a header line or starts the body early; it does
+	// not say how a helper that carries the value in the BODY (JSONP callback, AutoFormat) renders
+	// it. For those the strict parse above already fixes where the body starts (Content-Length
+	// matches, one response, nothing left over); whether the value appears verbatim is counted.
 	if h.body != nil {
-		s, ok := h.body(a)
-		if !ok {
-			return
+		if s, ok := h.body(a); ok && string(r.Body) != s {
+			e.Stat("body_carried_value_not_verbatim_"+h.name, 1)
 		}
-		wantBody = s
+		return
 	}
+	// header-only helpers: the body does not depend on the value, so it must be the benign one
+	wantBody := string(b.Body)
 	if string(r.Body) != wantBody {
 		detail["body"], detail["body_want"] = show(r.Body), show([]byte(wantBody))
 		report(c, sig, "body differs from what "+h.name+" must produce", detail)
